@@ -451,9 +451,23 @@ type c19Env struct {
 }
 
 func (e *c19Env) run(input string, sdk string) (string, string, error) {
+	return e.runOver(input, sdk, "")
+}
+
+// runOver: like run, but the output directory already holds an earlier, larger output (every generated file of
+// `earlier` followed by leftover text), as it does whenever a user regenerates in place.
+func (e *c19Env) runOver(input string, sdk string, earlier string) (string, string, error) {
 	e.n++
 	out := filepath.Join(e.scratch, fmt.Sprintf("out%d", e.n))
 	os.MkdirAll(out, 0o755)
+	if earlier != "" {
+		for n := range generatedNames {
+			if b, err := os.ReadFile(filepath.Join(earlier, n)); err == nil {
+				b = append(b, []byte(strings.Repeat("\n// leftover of an earlier, larger output\nvar _ = 0\n", 40))...)
+				os.WriteFile(filepath.Join(out, n), b, 0o644)
+			}
+		}
+	}
 	args := []string{}
 	if sdk != "" {
 		args = append(args, "-sdk", sdk)
@@ -497,7 +511,7 @@ func init() {
 		ID:    "C19",
 		Level: "exploration",
 		Rule: "the fitgen command built from the tree is run on product-profile selections: deviation 0 = each of the 5 bundled workbooks as .xlsx with -sdk and as FitSDKRelease_X.Y.zip, each twice; deviation 1 = every single-row toggle of the example column (disable an enabled row / enable a disabled one) that an independent dependency analysis allows, quick: the messages of 21.40 that carry components or subfields, thorough: every message of all 5 workbooks; subfield rows of dynamic fields disabled individually and all together; deviation 2 = dependency-closed pairs (a field with enabled subfields together with the reference field they switch on; a component source together with one of its targets). " +
-			"Oracle: exit status 0, the four files byte-identical across the two runs (and across input forms), declared SDK version, audit of struct fields and lookup entries against an independent stdlib reading of the workbook (one field + one entry per enabled row with its number, base type, array flag; nothing for disabled rows), and a go/types check of the generated files together with the hand-written support code: any error located in a generated file, or any support-code error outside the stock skew set of that workbook, is a violation. distinct = distinct generated outputs",
+			"Oracle: exit status 0, the four files byte-identical across the two runs (the second run regenerates in place, into a directory that already holds a larger earlier output; and across input forms), declared SDK version, audit of struct fields and lookup entries against an independent stdlib reading of the workbook (one field + one entry per enabled row with its number, base type, array flag; nothing for disabled rows), and a go/types check of the generated files together with the hand-written support code: any error located in a generated file, or any support-code error outside the stock skew set of that workbook, is a violation. distinct = distinct generated outputs",
 		Assumptions: []string{"rows with components, component targets, subfield reference fields of enabled rows and fields the hand-written code selects are not toggled (this only narrows the explored set)", "the 21.115 workbook the checked-in profile was generated from is not in the repository"},
 		Run:         runC19,
 		QuickBudget: 280, ThoroughBudget: 3300,
@@ -540,7 +554,8 @@ func runC19(w *vx.W) {
 		os.WriteFile(in, data, 0o644)
 		defer os.Remove(in)
 		d1, log1, err1 := env.run(in, ver)
-		d2, _, err2 := env.run(in, ver)
+		// the repeat goes into a directory that already holds (larger) output, as when regenerating in place
+		d2, _, err2 := env.runOver(in, ver, d1)
 		defer os.RemoveAll(d1)
 		defer os.RemoveAll(d2)
 		w.Eval(2)
@@ -549,7 +564,7 @@ func runC19(w *vx.W) {
 			return
 		}
 		if d := dirsEqual(d1, d2); d != "" {
-			w.Violation("nondeterministic-output", desc+": "+d, rep)
+			w.Violation("nondeterministic-output", desc+" (second run into a directory holding earlier, larger output): "+d, rep)
 			return
 		}
 		if h, err := os.ReadFile(filepath.Join(d1, "messages.go")); err == nil {
